@@ -24,8 +24,10 @@ PROPS = {
     },
     "C04": {
         "driver": "c04", "trace_spec": "TraceBodyWriter",
-        "mc_quick": [mc("MCBodyWriter", "MCBodyWriter_sized_impl.cfg"), mc("MCBodyWriter", "MCBodyWriter_sized_abs.cfg")],
-        "mc_thorough": [mc("MCBodyWriter", "MCBodyWriter_sized_impl.cfg"), mc("MCBodyWriter", "MCBodyWriter_sized_abs_thorough.cfg", workers=8)],
+        "mc_quick": [mc("MCBodyWriter", "MCBodyWriter_sized_impl.cfg"), mc("MCBodyWriter", "MCBodyWriter_sized_abs.cfg"),
+                     mc("SizedInd", "", tool="apalache", inv="IndInv")],
+        "mc_thorough": [mc("MCBodyWriter", "MCBodyWriter_sized_impl.cfg"), mc("MCBodyWriter", "MCBodyWriter_sized_abs_thorough.cfg", workers=8),
+                        mc("SizedInd", "", tool="apalache", inv="IndInv")],
         "require_classes": ["w:err", "dw:ok", "dw:err", "w:sized-empty", "w:overshoot"],
         "rule": "one case = a fresh Content-Length writer with N and a seeded schedule of write / direct-write / empty / overshooting calls; "
                 "distinct = distinct (api, N, schedule style)",
@@ -70,8 +72,8 @@ PROPS["C07"] = {
 }
 PROPS["C08"] = {
     "driver": "c08", "trace_spec": "TraceBodyReader",
-    "mc_quick": [mc("MCBodyReader", "MCBodyReader.cfg"), mc("MCBodyReader", "MCBodyReader_close.cfg")],
-    "mc_thorough": [mc("MCBodyReader", "MCBodyReader_thorough.cfg", workers=8), mc("MCBodyReader", "MCBodyReader_close.cfg")],
+    "mc_quick": [mc("MCBodyReader", "MCBodyReader.cfg"), mc("MCBodyReader", "MCBodyReader_close.cfg"), mc("LengthInd", "", tool="apalache", inv="IndInv")],
+    "mc_thorough": [mc("MCBodyReader", "MCBodyReader_thorough.cfg", workers=8), mc("MCBodyReader", "MCBodyReader_close.cfg"), mc("LengthInd", "", tool="apalache", inv="IndInv")],
     "require_classes": ["r:nothing", "r:filled-output", "verdict:close", "r:streamed-4g"],
     "rule": "one case = a Content-Length body of N bytes followed by bytes of a next response (or a close-delimited body) + an arrival/buffer schedule; "
             "distinct = distinct (api, N, buffer sizes)",
@@ -231,3 +233,6 @@ PROPS["X01"] = {
     "rule": "random histories over the single-call API (write with small buffers, premature into_receive, into_body before the response, partial heads, five framings)",
     "assumptions": ["extra: documented contract of Call<State,B>; the pinned tree's deviation ReceiveBeforeHead is listed in known_findings.txt as an observation"],
 }
+
+PROPS["X03"] = dict(PROPS["C07"], mc_quick=[], mc_thorough=[], require_classes=[],
+                    rule="the C07 driver's executions judged for the extra clause X03 (is_on_chunk_boundary semantics)")
